@@ -10,6 +10,7 @@
 #include <cstring>
 #include <cstdint>
 #include <execinfo.h>
+#include <sys/mman.h>
 #include <functional>
 
 namespace sim {
@@ -31,6 +32,25 @@ struct SimMemoryManager : public xercesc::MemoryManager {
     void* lastRefusedBt[24]; int lastRefusedBtN = 0;            // backtrace of the refused allocation
     std::function<void(int)> yield;                              // scheduler hook (kind: 0 alloc, 1 free)
     const char* name = "mm";
+
+    // ---- deterministic arena mode: every block comes from a private mapping at a fixed virtual address that depends only
+    // on how many managers were created before in this run, so heap addresses inside the library (and therefore the
+    // iteration order and probe counts of its pointer-keyed hash containers) are identical in every process.
+    static bool& arenaMode() { static bool v = false; return v; }
+    static int& arenaNext() { static int v = 0; return v; }
+    static void arenaNewRun() { arenaNext() = 0; }
+    static constexpr uintptr_t ARENA_BASE = 0x001000000000ULL;     // 64 GiB: inside ThreadSanitizer's low application range
+    static constexpr size_t ARENA_SLOT = 1ULL << 31;               // 2 GiB of address space per manager (MAP_NORESERVE)
+    char* aBase = nullptr; size_t aBump = 0; int aSlot = -1;
+    SimMemoryManager() {
+        if (arenaMode()) {
+            aSlot = arenaNext()++;
+            void* want = (void*)(ARENA_BASE + (uintptr_t)aSlot * ARENA_SLOT);
+            void* p = mmap(want, ARENA_SLOT, PROT_READ | PROT_WRITE, MAP_PRIVATE | MAP_ANONYMOUS | MAP_NORESERVE | MAP_FIXED_NOREPLACE, -1, 0);
+            if (p == want) { aBase = (char*)p; reuse = true; } else { if (p != MAP_FAILED) munmap(p, ARENA_SLOT); aSlot = -1; }
+        }
+    }
+    void* arenaAlloc(size_t k) { if (aBump + k > ARENA_SLOT) return nullptr; void* p = aBase + aBump; aBump += k; return p; }
 
     void beginOp() { opAllocs = 0; }
     void setFault(uint64_t k, bool sticky = false) { failAt = k; failSticky = sticky; }
@@ -55,6 +75,7 @@ struct SimMemoryManager : public xercesc::MemoryManager {
             auto& fl = freeLists[k];
             if (!fl.empty()) { p = fl.back(); fl.pop_back(); }
         }
+        if (!p && aBase) p = arenaAlloc(k);
         if (!p) p = std::malloc(reuse ? k : (size ? size : 1));
         if (!p) throw xercesc::OutOfMemoryException();
         { Block b; b.size = size; b.serial = serial; b.live = true; b.btn = 0; if (recordSites()) b.btn = backtrace(b.bt, 10); table[p] = b; }
@@ -83,11 +104,11 @@ struct SimMemoryManager : public xercesc::MemoryManager {
     uint64_t discardAll() {
         uint64_t n = 0;
         for (auto& kv : table) if (kv.second.live) { ++n; if (!reuse) std::free(kv.first); kv.second.live = false; }
-        if (reuse) { for (auto& kv : table) std::free(kv.first); }
+        if (reuse && !aBase) { for (auto& kv : table) std::free(kv.first); }
         table.clear(); freeLists.clear(); liveBytes = 0; liveBlocks = 0;
         return n;
     }
-    ~SimMemoryManager() { discardAll(); }
+    virtual ~SimMemoryManager() { discardAll(); if (aBase) munmap(aBase, ARENA_SLOT); }
 };
 
 } // namespace sim
